@@ -35,6 +35,7 @@ DIMS = [
     ("format", [False, True]),
     ("qname", ["q.graphql", "sub/q.v2.graphql"]),
     ("short_flags", [False, True]),
+    ("preexisting", [False, True]),   # a longer file already sits at the destination (regeneration)
 ]
 
 
@@ -142,6 +143,11 @@ def run(tier):
             f.write(sdl)
         with open(os.path.join(root, cfg["qname"]), "w") as f:
             f.write(qtext)
+        if cfg["preexisting"]:
+            stem = os.path.splitext(os.path.basename(cfg["qname"]))[0]
+            dest = os.path.join(root, "out", stem + ".rs") if cfg["outdir"] else os.path.join(root, os.path.dirname(cfg["qname"]), stem + ".rs")
+            with open(dest, "w") as f:
+                f.write("// output of an earlier run\n" + "// padding padding padding padding\n" * 4000)
         before = snapshot(root)
         rc, out, err = run_process([cli] + argv_for(cfg, root), timeout=60, cwd=root)
         after = snapshot(root)
@@ -178,7 +184,11 @@ def run(tier):
             rep.violation("cli_failed_on_supported_input", label, {"rc": res["rc"], "stderr": res["stderr"]}, sigs)
             continue
         outcomes["ok"] = outcomes.get("ok", 0) + 1
-        if new != [want_rel] or changed:
+        if cfg["preexisting"]:
+            wrong = new != [] or changed != [want_rel]
+        else:
+            wrong = new != [want_rel] or changed != []
+        if wrong:
             rep.violation("wrong_files_written", label, {"new": new, "expected": [want_rel], "modified": changed}, sigs)
             continue
         with open(os.path.join(res["root"], want_rel), encoding="utf-8") as f:
